@@ -245,6 +245,11 @@ func init() {
 	add("C01", "B2", "O1")
 	add("C02", "B2", "O1")
 	add("C05", "F5")
+	add("C05", "B4")
+	add("C02", "B4")
+	b4 := " (B4) a request processor hands the shared column list back on every return a request of the right type can reach: the service stores the returned list into the shared batch before it looks at the error, so a data-dependent rejection returning nil columns drops the rows other clients have waiting and breaks the next flush."
+	properties["C05"].Explanation += b4
+	properties["C02"].Explanation += b4
 	add("C06", "F5")
 	add("C07", "D7")
 	add("C08", "D7")
